@@ -1,0 +1,17 @@
+//go:build verif
+
+package atomic
+
+// VerifHook, when set, is called at every instrumented yield point with the
+// name of the site. It exists only in builds with the verif tag.
+var VerifHook func(site string)
+
+// VerifSpawn, when set, receives tasks handed to the default executor. It
+// returns true when it took ownership of the task.
+var VerifSpawn func(run func()) bool
+
+func verifYield(site string) {
+	if h := VerifHook; h != nil {
+		h(site)
+	}
+}
